@@ -69,6 +69,7 @@ PreC == {"int","uint","nint","tstr","text","bool","true","false","nil","null","a
 IntsC == {0, 1, 2, 3, 5, -1, -2, -3, 255, 256, 65535, 65536}
 RangesC == {Rng(I(a), I(b), incl) : a \in {-2, 0, 1}, b \in {1, 3, 255}, incl \in BOOLEAN} \cup {Rng(I(-3), I(-1), incl) : incl \in BOOLEAN}
 CtlC == {CtlT("size", Ref("uint"), Lit(I(n))) : n \in {0, 1, 2, 4, 8, 16}} \cup {CtlT("size", Ref("tstr"), Lit(I(n))) : n \in {0, 1, 2}}
+        \cup {CtlT("size", Ref("tstr"), Rng(I(1), I(2), incl)) : incl \in BOOLEAN}
         \cup {CtlT(op, Ref(t), Lit(I(n))) : op \in {"lt","le","gt","ge","eq","ne"}, t \in {"int","uint","nint"}, n \in {-2, 0, 2}}
         \cup {CtlT(op, Ref("tstr"), Lit(Tx(A))) : op \in {"eq","ne"}}
         \cup {CtlT(op, Ref("int"), Ref("uint")) : op \in {"and","within"}} \cup {CtlT("and", Rng(I(0), I(3), TRUE), Rng(I(2), I(5), TRUE))}
@@ -92,6 +93,8 @@ SchemasD ==
            GRule("g1", Ent(1,1,Bare("a", A),IntT)), [GRule("g1", Ent(o[1],o[2],Bare("b", B),TstrT)) EXCEPT !.op = "//="]>> : o \in {<<1,1>>, <<0,1>>} }
   \cup { <<Rule("root", Ty(<<MapT(<<<<Ent(1,1,Bare("a", A),IntT), [k |-> "name", lo |-> 1, hi |-> 1, n |-> "g1", args |-> <<>>]>>>>)>>)),
            GRule("g1", Ent(1,1,Bare("b", B),IntT)), [GRule("g1", Ent(1,1,Bare("b", B),TstrT)) EXCEPT !.op = "//="]>> }
+  \cup { <<Rule("root", Ty(<<MapT(<<<<[k |-> "name", lo |-> o[1], hi |-> o[2], n |-> "g1", args |-> <<>>], Ent(1,1,Bare("b", B),IntT)>>>>)>>)),
+           GRule("g1", Ent(1,1,Bare("a", A),IntT))>> : o \in {<<0,1>>, <<1,1>>} }
   \cup { <<Rule("root", Ty(<<Ref("a")>>)), Rule("a", Ty(<<Ref("b")>>)), Rule("b", Ty(<<Ref("a")>>))>>,
          <<Rule("root", Ty(<<Ref("a")>>)), Rule("a", Ty(<<Ref("b"), Ref("int")>>)), Rule("b", Ty(<<Ref("a")>>))>>,
          <<Rule("root", Ty(<<ArrT(<<<<Ent(0,-1,NoKey,Ty(<<Ref("root")>>))>>>>)>>))>>,
